@@ -101,11 +101,11 @@ Theorem C17_flag_calls_commute : forall cls l1 f c l2 st, is_flag_call f = true 
 Proof. exact flag_call_commutes. Qed.
 Print Assumptions C17_flag_calls_commute.
 
-(* the once-only guards raise AttributeError *)
+(* the once-only guards raise AttributeError (primary_key/foreign_key: as soon as the slot is not None) *)
 Theorem C17_guards : forall cls st,
   (forall t, is_some (s_table st) = true -> step cls st (KCreateTable t) = Err "AttributeError")
-  /\ (forall ns, pk_truthy st = true -> step cls st (KPrimaryKey ns) = Err "AttributeError")
-  /\ (forall a t b od ou, fk_truthy st = true -> step cls st (KForeignKey a t b od ou) = Err "AttributeError")
+  /\ (forall ns, pk_set st = true -> step cls st (KPrimaryKey ns) = Err "AttributeError")
+  /\ (forall a t b od ou, fk_set st = true -> step cls st (KForeignKey a t b od ou) = Err "AttributeError")
   /\ (forall cs, is_some (s_as_select st) = true -> step cls st (KColumns cs) = Err "AttributeError")
   /\ (forall q, nonempty (s_columns st) = true -> step cls st (KAsSelect q) = Err "AttributeError")
   /\ ((has_vertica_flags cls && s_temporary st)%bool = false ->
@@ -169,6 +169,7 @@ Example C17_example_text :
   /\ create_text CVertica w_table [KTemporary; KLocal; KIfNotExists; KColumns [CAStr "a"]; KPreserveRows]
      = "CREATE LOCAL TEMPORARY TABLE IF NOT EXISTS ""t"" (""a"") ON COMMIT PRESERVE ROWS"
   /\ create_text CGeneric w_table [KColumns [CAStr "a"]; KPrimaryKey ["a"]; KPrimaryKey ["b"]] = "!AttributeError"
+  /\ create_text CGeneric w_table [KColumns [CAStr "a"]; KPrimaryKey []; KPrimaryKey ["a"]] = "!AttributeError"
   /\ create_text CGeneric w_table [KIfNotExists] = "".
 Proof. vm_compute. repeat split. Qed.
 Print Assumptions C17_example_text.
